@@ -3304,7 +3304,15 @@ static void thread_main_sched_func(void *arg)
         if ((ABTD_atomic_relaxed_load_uint32(&p_sched->request) &
              ABTI_SCHED_REQ_FINISH) &&
             !ABTI_sched_has_unit(p_sched)) {
-            break;
+            /* ABTI_sched_has_unit() reads the emptiness of a pool and then its
+             * number of blocked ULTs, so a blocked ULT that is resumed between
+             * the two reads is counted in neither.  Check again as
+             * ABTI_sched_has_to_stop() does; the second call sees the pushed
+             * ULT.  This check is the deciding one when run() returns although
+             * the scheduler does not have to stop (e.g., ABT_SCHED_BASIC_WAIT
+             * returns after executing a work unit obtained by pop_wait()). */
+            if (!ABTI_sched_has_unit(p_sched))
+                break;
         }
     }
     /* Finish this thread and goes back to the root thread. */
